@@ -231,7 +231,10 @@ def check_ps(ctx, case):
             if be == "bosonic" and sfrun.weights_bad(info):
                 return ctx.fail("bosonic.weights_sum.%s" % op[0], "weights sum to %r after prefix %d" % (info["wsum"], k))
             me = float(np.min(np.linalg.eigvalsh(V + 1j * hbar / 2 * refsim.omega(n)))) / (hbar / 2)
-            if me < -1e-9 * sc:
+            # measurement-based squeezing works with an ancilla squeezed by r_anc: intermediate quantities are of size exp(2 r_anc) (4.9e8 for
+            # the generated r_anc = 10) and leave a rounding error of that size times eps in the (pure) result
+            slack = max([1e-15 * float(np.exp(2 * abs(o_[1][2]))) for o_ in ops_[:k] if o_[0] == "MSgate"] + [0.0])
+            if me < -1e-9 * sc - slack:
                 return ctx.fail("%s.uncertainty_violated.%s" % (be, op[0]), "min eig of V + i hbar/2 Omega = %.3g (units of hbar/2) after prefix %d" % (me, k))
             if prev is not None:
                 pmu, pV = prev
